@@ -33,6 +33,7 @@ pub struct OpMix {
     pub damage_content: u32,
     pub damage_bucket: u32,
     pub foreign: u32,
+    pub two_writers: u32,
 }
 
 impl OpMix {
@@ -57,6 +58,7 @@ impl OpMix {
         damage_content: 0,
         damage_bucket: 0,
         foreign: 0,
+        two_writers: 0,
     };
 }
 
@@ -172,7 +174,48 @@ pub fn op(cfg: ProgCfg, nkeys: usize, nblobs: usize) -> BoxedStrategy<Op> {
         m.foreign,
         (k(), k(), gen::addr_ref(nblobs)).prop_map(|(bucket_of, key, addr)| Op::ForeignRecord { bucket_of, key, addr }).boxed(),
     );
+    add(
+        m.two_writers,
+        (gen::write_spec(cfg.wmix, nkeys, nblobs), gen::write_spec(cfg.wmix, nkeys, nblobs), any::<bool>(), 0u8..4)
+            .prop_map(|(a, b, b_first, twin)| two_writers(a, b, b_first, twin))
+            .boxed(),
+    );
     proptest::strategy::Union::new_weighted(alts).boxed()
+}
+
+/// Two streaming writers open at once. `twin` 0: unrelated specs; 1: the same data and the same
+/// correctly declared integrity under two keys; 2: the same key; 3: same data, same key.
+pub fn two_writers(mut a: WriteSpec, mut b: WriteSpec, b_first: bool, twin: u8) -> Op {
+    for s in [&mut a, &mut b] {
+        s.entry = WEntry::Opts;
+        if s.chunks.is_empty() {
+            s.chunks = vec![2, 5];
+        }
+        s.pause_ms = 0;
+        s.interfere = Interfere::None;
+        s.vectored = 0;
+        s.cancel_chunk = None;
+        s.aged_hours = 0;
+        s.flush = false;
+    }
+    match twin {
+        1 => {
+            b.blob = a.blob;
+            b.algo = a.algo;
+            a.integ = IntegDecl::Correct;
+            b.integ = IntegDecl::Correct;
+            a.declare = Declare::None;
+            b.declare = Declare::Exact;
+        }
+        2 => b.key = a.key,
+        3 => {
+            b.key = a.key;
+            b.blob = a.blob;
+            b.algo = a.algo;
+        }
+        _ => {}
+    }
+    Op::TwoWriters { a, b, b_first }
 }
 
 /// Random programs: pools first, then steps whose selectors are resolved against the pool
@@ -220,6 +263,14 @@ pub fn remap_op(op: &mut Op, fk: &dyn Fn(usize) -> usize, fb: &dyn Fn(usize) -> 
                 *k = fk(*k);
             }
             s.blob = fb(s.blob);
+        }
+        Op::TwoWriters { a, b, .. } => {
+            for s in [a, b] {
+                if let Some(k) = &mut s.key {
+                    *k = fk(*k);
+                }
+                s.blob = fb(s.blob);
+            }
         }
         Op::Read { key } | Op::Meta { key } | Op::Remove { key } | Op::RemoveOpts { key, .. } | Op::IdxFind { key } | Op::IdxDelete { key } => {
             *key = fk(*key)
@@ -271,6 +322,10 @@ pub fn addr_universe(prog: &Program) -> Vec<AddrRef> {
             Op::Write(w) | Op::Abandon { spec: w, .. } => {
                 let algo = if matches!(w.entry, WEntry::OneShot | WEntry::Create) { Algo::Sha256 } else { w.algo };
                 push(AddrRef { algo, blob: w.blob })
+            }
+            Op::TwoWriters { a, b, .. } => {
+                push(AddrRef { algo: a.algo, blob: a.blob });
+                push(AddrRef { algo: b.algo, blob: b.blob });
             }
             Op::LinkTo(l) => push(AddrRef { algo: if l.oneshot { Algo::Sha256 } else { l.algo }, blob: l.blob }),
             Op::ReadHash { addr } | Op::Exists { addr } | Op::RemoveHash { addr } | Op::DamageContent { addr, .. } => push(*addr),
